@@ -145,7 +145,21 @@ func (e *SpecEnv) visitedBuiltin(x *ECall) SV {
 
 // bindVisited tells the invariant environment which visited set `visited(k)` denotes.
 func (fr *Frame) bindVisited(env *SpecEnv, li *loopInfo) {
-	if r := fr.mapRangeOfLoop(li); r != nil {
+	r := fr.mapRangeOfLoop(li)
+	if r == nil {
+		// a loop nested in a map-range loop: visited(k) is the visited set of the innermost enclosing map range. Its `next` runs in
+		// the enclosing header, so inside the body (and in this nested loop) the key being processed is already in the set.
+		var best *loopInfo
+		for _, o := range fr.loops {
+			if o != li && o.body[li.header] && fr.mapRangeOfLoop(o) != nil && (best == nil || len(o.body) < len(best.body)) {
+				best = o
+			}
+		}
+		if best != nil {
+			r = fr.mapRangeOfLoop(best)
+		}
+	}
+	if r != nil {
 		if k, s, ok := fr.visitedKey(r); ok {
 			env.visitedKey, env.visitedSort = k, s
 		}
